@@ -94,6 +94,7 @@ struct Session {
     std::map<std::string, long> eidOfId;     // UUID -> model eid (bound at creation, survives reopen)
     std::map<long, std::string> idOf;
     std::map<long, long> createdAt;
+    json carried = json::array();            // issues observed immediately before a close (what was observable before closing)
     Dict dict;
     std::string path;
     long unknown = 0;
@@ -497,6 +498,31 @@ std::string fileHash(const std::string &p) {
     return std::to_string(n) + ":" + std::to_string(h);
 }
 
+// what a handle shows about its entity through cheap getters (used to compare a handle the client has kept with a
+// fresh look-up of the same entity: both must show the same state)
+json viewOf(const Ent &e) {
+    json v = json::object();
+    auto sid = [](const nix::Section &x) { return x ? x.id() : std::string("none"); };
+    auto aid = [](const nix::DataArray &x) { return x ? x.id() : std::string("none"); };
+    try {
+        if (e.kind == "block") { v["name"] = e.block.name(); v["type"] = e.block.type(); v["def"] = e.block.definition() ? *e.block.definition() : ""; v["md"] = sid(e.block.metadata());
+            v["n"] = {e.block.dataArrayCount(), e.block.tagCount(), e.block.multiTagCount(), e.block.groupCount(), e.block.sourceCount(), e.block.dataFrameCount()}; }
+        else if (e.kind == "section") { v["name"] = e.section.name(); v["type"] = e.section.type(); v["def"] = e.section.definition() ? *e.section.definition() : ""; v["link"] = sid(e.section.link());
+            v["n"] = {e.section.sectionCount(), e.section.propertyCount()}; v["repo"] = e.section.repository() ? *e.section.repository() : ""; }
+        else if (e.kind == "prop") { v["name"] = e.prop.name(); v["n"] = e.prop.valueCount(); v["unit"] = e.prop.unit() ? *e.prop.unit() : ""; }
+        else if (e.kind == "source") { v["name"] = e.source.name(); v["type"] = e.source.type(); v["md"] = sid(e.source.metadata()); v["n"] = e.source.sourceCount(); }
+        else if (e.kind == "array") { v["name"] = e.array.name(); v["type"] = e.array.type(); v["md"] = sid(e.array.metadata()); v["n"] = {e.array.sourceCount(), e.array.dimensionCount()};
+            v["label"] = e.array.label() ? *e.array.label() : ""; v["unit"] = e.array.unit() ? *e.array.unit() : ""; nix::NDSize sh = e.array.dataExtent(); v["shape"] = std::vector<long>(sh.begin(), sh.end()); }
+        else if (e.kind == "frame") { v["name"] = e.frame.name(); v["type"] = e.frame.type(); v["md"] = sid(e.frame.metadata()); v["n"] = {e.frame.sourceCount(), e.frame.rows()}; }
+        else if (e.kind == "tag") { v["name"] = e.tag.name(); v["type"] = e.tag.type(); v["md"] = sid(e.tag.metadata()); v["n"] = {e.tag.referenceCount(), e.tag.featureCount(), e.tag.sourceCount()}; v["pos"] = e.tag.position(); v["units"] = e.tag.units(); }
+        else if (e.kind == "mtag") { v["name"] = e.mtag.name(); v["type"] = e.mtag.type(); v["md"] = sid(e.mtag.metadata()); v["n"] = {e.mtag.referenceCount(), e.mtag.featureCount(), e.mtag.sourceCount()};
+            v["positions"] = aid(e.mtag.positions()); v["extents"] = aid(e.mtag.extents()); }
+        else if (e.kind == "group") { v["name"] = e.group.name(); v["type"] = e.group.type(); v["md"] = sid(e.group.metadata()); v["n"] = {e.group.dataArrayCount(), e.group.tagCount(), e.group.multiTagCount(), e.group.dataFrameCount(), e.group.sourceCount()}; }
+        else if (e.kind == "feature") { v["data"] = aid(e.feature.data()); v["lt"] = (int) e.feature.linkType(); }
+    } catch (const std::exception &ex) { v["threw"] = ex.what(); }
+    return v;
+}
+
 json observe(Session &s) {
     json o = {{"open", s.open}, {"mode", s.open ? s.mode : ""}, {"ents", json::array()}, {"handles", json::array()}, {"issues", json::array()}};
     // C11: after close() the file is released: no descriptor of this process refers to it any more
@@ -518,6 +544,7 @@ json observe(Session &s) {
         for (auto &x : w.issues) o["issues"].push_back(x);
         s.fresh = w.fresh;
     }
+    for (auto &x : s.carried) o["issues"].push_back(x);
     for (long eid : s.retainedOrder) {
         Ent &e = s.retained[eid];
         bool valid;
@@ -525,6 +552,12 @@ json observe(Session &s) {
             try { valid = e.valid(); } catch (...) { valid = false; }
             // a handle that claims to be valid must still denote the same entity (ids never change)
             if (valid) { try { if (e.id() != s.idOf[eid]) o["issues"].push_back("retained handle changed its id: eid " + std::to_string(eid)); } catch (...) {} }
+            // a handle the client kept and a fresh look-up of the same entity must show the same state
+            auto fr = s.fresh.find(eid);
+            if (valid && fr != s.fresh.end()) {
+                json a = viewOf(e), b = viewOf(fr->second);
+                if (a != b) o["issues"].push_back("a retained handle of eid " + std::to_string(eid) + " shows a different state than a fresh look-up: " + firstDiff(b, a));
+            }
         } else {
             // after close: every earlier handle must fail with an exception (getter and mutator)
             bool g = false, m = false;
@@ -689,7 +722,10 @@ void doAppendDim(Session &s, const json &g) {
 
 nix::FileMode modeOf(const std::string &m) { return m == "ro" ? nix::FileMode::ReadOnly : m == "rw" ? nix::FileMode::ReadWrite : nix::FileMode::Overwrite; }
 
-void closeSession(Session &s) { s.f.close(); s.open = false; }
+void closeSession(Session &s) {
+    if (s.open) { json pre = observe(s); for (auto &x : pre["issues"]) { std::string m = x.get<std::string>(); if (m.rfind("before close: ", 0) != 0 && s.carried.size() < 10) s.carried.push_back("before close: " + m); } }
+    s.f.close(); s.open = false;
+}
 
 void openSession(Session &s, const std::string &m) {
     s.roHash = (m == "ro") ? fileHash(s.path) : "";
